@@ -52,7 +52,7 @@ class CheckC09(core.Check):
         for _ in range(rnd.randrange(6, 30)):
             d = 0 if parsed.oneway else rnd.randrange(2)
             w, r = ("A", "B") if d == 0 else ("B", "A")
-            a = rnd.choice(["w", "w", "wbad", "deliver", "deliver", "garbage", "short", "paybuf", "setrx", "settx", "setboth", "replay"])
+            a = rnd.choice(["w", "w", "wbad", "deliver", "deliver", "garbage", "short", "paybuf", "setrx", "settx", "setboth", "replay", "setrx_sender"])
             k += 1
             if st:
                 n = rnd.choice(VALUES + [rnd.getrandbits(64)])
@@ -100,6 +100,12 @@ class CheckC09(core.Check):
                     reg, mn = last[d]
                     lab = c.op("t_read", r, msg="$" + reg, buf=rnd.choice([0, 5]))
                     steps.append((lab, r, "garbage", d))
+            elif a == "setrx_sender":
+                # the sender's own receiving counter (the other direction; unused for a one-way initiator)
+                v = rnd.choice(VALUES + [rnd.getrandbits(64)])
+                lab = c.op("set_rx_nonce", w, n=v)
+                steps.append((lab, w, "setrx", (1 - d, v)))
+                rn[1 - d] = v
             else:
                 v = rnd.choice(VALUES + [rnd.getrandbits(64)])
                 if a in ("setrx", "setboth"):
